@@ -731,6 +731,71 @@ impl Driver {
     }
 }
 
+/// several threads dispatch their programs on ONE shared configuration while readers snapshot it
+fn concurrent(run: &mut Run, init: &Init, progs: &[Vec<(String, Outcome)>], readers: usize) -> String {
+    use std::sync::{Arc, Barrier, Mutex};
+    use std::sync::atomic::{AtomicBool, AtomicUsize, Ordering};
+    let cfg = build(init);
+    let snap0 = cfg.snapshot();
+    let n = progs.len();
+    let barrier = Arc::new(Barrier::new(n + readers));
+    let done = Arc::new(AtomicUsize::new(0));
+    let panicked = Arc::new(AtomicBool::new(false));
+    let seen: Arc<Mutex<Vec<String>>> = Arc::new(Mutex::new(vec![]));
+    let mut resps: Vec<Vec<Option<J>>> = vec![vec![]; n];
+    std::thread::scope(|sc| {
+        let mut handles = vec![];
+        for p in progs.iter() {
+            let cfg = cfg.clone();
+            let barrier = barrier.clone();
+            let done = done.clone();
+            let panicked = panicked.clone();
+            handles.push(sc.spawn(move || {
+                barrier.wait();
+                let mut out = vec![];
+                for (text, _) in p.iter() {
+                    let r = catch(AssertUnwindSafe(|| dispatch(&cfg, None, None, text).map(|r| r.to_json())));
+                    if r.is_none() { panicked.store(true, Ordering::SeqCst); }
+                    out.push(resp_tree(r.flatten()));
+                    if out.len() % 3 == 0 { std::thread::yield_now(); }
+                }
+                done.fetch_add(1, Ordering::SeqCst);
+                out
+            }));
+        }
+        for _ in 0..readers {
+            let cfg = cfg.clone();
+            let barrier = barrier.clone();
+            let done = done.clone();
+            let seen = seen.clone();
+            sc.spawn(move || {
+                barrier.wait();
+                let mut local: Vec<String> = vec![];
+                let mut spins = 0u32;
+                while done.load(Ordering::SeqCst) < n || spins < 50 {
+                    let l = coq_snap(&cfg.snapshot());
+                    if !local.contains(&l) { local.push(l); }
+                    spins += 1;
+                    if spins > 200_000 { break; }
+                }
+                let mut g = seen.lock().unwrap();
+                for l in local { if !g.contains(&l) { g.push(l); } }
+            });
+        }
+        for (k, h) in handles.into_iter().enumerate() {
+            match h.join() { Ok(v) => resps[k] = v, Err(_) => panicked.store(true, Ordering::SeqCst) }
+        }
+    });
+    let fin = cfg.snapshot();
+    if panicked.load(Ordering::SeqCst) { run.panics += 1; }
+    let seen = seen.lock().unwrap();
+    run.count_n("conc:distinct_snapshots_seen", seen.len() as u64);
+    let progs_lit = format!("[{}]", progs.iter().map(|p| format!("[{}]", p.iter().map(|(_, o)| coq_outcome(o)).collect::<Vec<_>>().join(";"))).collect::<Vec<_>>().join(";"));
+    let resps_lit = format!("[{}]", resps.iter().map(|p| format!("[{}]", p.iter().map(coq_oj).collect::<Vec<_>>().join(";"))).collect::<Vec<_>>().join(";"));
+    format!("CConc {} {} {} {} {} [{}] {}", coq_init(init), coq_snap(&snap0), progs_lit, resps_lit,
+        boolc(panicked.load(Ordering::SeqCst)), seen.join(";"), coq_snap(&fin))
+}
+
 fn tally(run: &mut Run, who: &str, o: &Obs1) {
     let key = match &o.resp {
         None => if o.panic { "panic".to_string() } else { "no_response".to_string() },
@@ -856,6 +921,40 @@ pub fn run(seed: u64, tier: &str, out: &Path, _extra: &[(String, String)]) -> st
         let text = d.sequential(&mut run, &init, ctx_on, &lines);
         run.count_n("history:lines", n as u64);
         run.push("history", true, text);
+    }
+
+    // (c) concurrent setters / status readers / snapshot readers on one shared configuration
+    for _ in 0..(40 * scale) {
+        let init = gen_init(&mut rng, &g.tmo_pool);
+        let nthreads = rng.range(2, 4) as usize;
+        // each field is written by a random subset of the threads, so that "own write visible" bites
+        let writers: Vec<u64> = (0..4).map(|_| rng.below(1 << nthreads)).collect();
+        let mut progs: Vec<Vec<(String, Outcome)>> = vec![];
+        for k in 0..nthreads {
+            let len = rng.range(6, 24) as usize;
+            let mut p = vec![];
+            for _ in 0..len {
+                let id = if rng.chance(1, 5) { None } else { Some(J::Int(rng.range(1, 999) as i128)) };
+                let f = rng.below(7);
+                let j = if f < 4 && (writers[f as usize] >> k) & 1 == 1 {
+                    match f {
+                        0 => g.simple_request("set_mode", Some(obj(vec![("mode", s(rng.pick(&["classic", "enhanced"])))])), id),
+                        1 => g.simple_request("set_quality", Some(obj(vec![("enabled", J::Bool(rng.chance(1, 2)))])), id),
+                        2 => g.simple_request("set_stall_deselect", Some(obj(vec![("enabled", J::Bool(rng.chance(1, 2)))])), id),
+                        _ => g.simple_request("set_conn_timeout", Some(obj(vec![("ms", J::Int(*rng.pick(&g.tmo_pool)))])), id),
+                    }
+                } else if f == 6 { g.request(&mut rng) } else { g.simple_request("get_status", None, Some(J::Int(rng.range(1, 999) as i128))) };
+                // a random request-like line may write any field: keep the writer sets honest by re-classifying below (the
+                // monitor derives the writer sets from the programs themselves, not from this table)
+                let text = g.w.line(&mut rng, &j);
+                p.push((text, Outcome::Parsed(j)));
+            }
+            progs.push(p);
+        }
+        let readers = rng.range(1, 2) as usize;
+        let text = concurrent(&mut run, &init, &progs, readers);
+        run.count_n("conc:threads", nthreads as u64);
+        run.push("concurrent", true, text);
     }
 
     run.note(format!("timeout pool: {:?}", g.tmo_pool));
